@@ -1,10 +1,11 @@
 import KinModel.Drv.Util
 import KinModel.RequestFlow
+import KinModel.RequestHistory
 import KinModel.Style
 import KinModel.Body
 open Lean
 namespace KinModel.Drv.C07
-open KinModel.Drv KinModel.RequestFlow
+open KinModel.Drv KinModel.RequestFlow KinModel.RequestHistory
 open KinModel.Request (In Param Opts Part overridden skipQuery)
 
 def parseIn (s : String) : In :=
@@ -72,6 +73,13 @@ def bodyByC06 (bf : BodyFacts) : Bool :=
     else { text := [], json := none, form := none, parts := none }
   (Body.validateRequestBodyD Body.registry rb ct.toList b false true).isOk
 
+/-- the `Options` value of one call of the case: nil pointer, or the struct with its exclusions, mode and callback -/
+def parseCall (j : Json) : Call :=
+  if getBool j "optionsNil" then ⟨none⟩ else
+  let accepted := strs (getArr j "accepted")
+  ⟨some ⟨{ excludeBody := getBool j "excludeBody", excludeQuery := getBool j "excludeQuery", multiError := getBool j "multi" },
+         if getBool j "authNil" then none else some (fun s sc => accepted.contains (callKey s sc))⟩⟩
+
 /-- request: {opParams (null | [..]), pathParams, opSecurity (null | [[..]]), docSecurity, declared:[..],
     accepted:["scheme(scope,scope)", ..], authNil, body (null | {required, sent, ctOK, valid}),
     excludeBody, excludeQuery, multi, …fields only the Go runner reads} -/
@@ -85,15 +93,22 @@ def handle (j : Json) : Json :=
     opSecurity := if isNull j "opSecurity" then none else some (parseReqs (getArr j "opSecurity")),
     docSecurity := parseReqs (getArr j "docSecurity"),
     hasBody := hasBody, bodyOK := bf.ok }
-  let o : Opts := { excludeBody := getBool j "excludeBody", excludeQuery := getBool j "excludeQuery",
-                    multiError := getBool j "multi" }
   let declared := strs (getArr j "declared")
-  let accepted := strs (getArr j "accepted")
-  let env : Env := {
-    declared := fun s => declared.contains s,
-    auth := if getBool j "authNil" then none else some (fun s sc => accepted.contains (callKey s sc)) }
-  let res := validateRequest o op env
-  let log := authLog o op env
+  let call0 := parseCall j
+  -- the history: the case's own call, then one call per entry of "history" (the entry overrides the option fields)
+  let calls := call0 :: (getArr j "history").map (fun st => parseCall (j.mergeObj st))
+  let dfun : String → Bool := fun s => declared.contains s
+  let outs := validateHistory op dfun calls
+  let o : Opts := call0.opts
+  let env : Env := call0.env dfun
+  let res := (outs.head?.getD (.stuck, [])).1
+  let log := (outs.head?.getD (.stuck, [])).2
+  let histModel := (outs.drop 1).map (fun r => jobj [("ok", Json.bool r.1.isOk), ("shape", Json.str (shapeStr r.1)),
+                    ("parts", jstrs (r.1.parts.map partStr)),
+                    ("authLog", jstrs (r.2.map (fun c => callKey c.scheme c.scopes)))])
+  let histSpec := (calls.drop 1).map (fun c => jobj [("accept", Json.bool (acceptB c.opts op (c.env dfun))),
+                   ("failing", jstrs ((failingSpec c.opts op (c.env dfun)).map partStr))])
+  let histDiffer := (outs.drop 1).any (fun r => r.1.parts != res.parts || r.1.isOk != res.isOk)
   let allParams := op.pathParams ++ opList op
   let allFacts := ((getArr j "pathParams") ++ (getArr j "opParams")).map parseFacts
   let uses := (securityList op).flatten
@@ -130,15 +145,23 @@ def handle (j : Json) : Json :=
     (if getStr build "doc" == "loaded" then ["build.doc.loaded"] else []) ++
     (if getBool j "authReadsBody" && !log.isEmpty then ["auth.readsbody"] else []) ++
     (if getBool j "optionsNil" then ["opt.nil"] else []) ++
+    (if calls.length > 1 then ["hist"] else []) ++
+    (if calls.length > 2 then ["hist.long"] else []) ++
+    (if histDiffer then ["hist.differ"] else []) ++
+    (if (calls.drop 1).any (fun c => c.options.isNone) then ["hist.nilopts"] else []) ++
+    (if (getArr j "history").any (fun st => getStr st "reuse" == "input") then ["hist.reuse.input"] else []) ++
+    (if (getArr j "history").any (fun st => getStr st "reuse" == "request") then ["hist.reuse.request"] else []) ++
+    (if (getArr j "history").any (fun st => getStr st "reuse" == "doc") then ["hist.reuse.doc"] else []) ++
+    (if (getArr j "history").any (fun st => getStr st "optsHow" == "mutate") then ["hist.opts.mutate"] else []) ++
     (if getStr j "undeclaredHow" != "" then ["sec.undeclared." ++ getStr j "undeclaredHow"] else []) ++
     (if ((getArr j "pathParams") ++ (getArr j "opParams")).any (fun p => getBool p "ref") then ["param.ref"] else [])
   jobj [
     ("model", jobj [("ok", Json.bool res.isOk), ("shape", Json.str (shapeStr res)),
                     ("parts", jstrs (res.parts.map partStr)),
                     ("authLog", jstrs (log.map (fun c => callKey c.scheme c.scopes))),
-                    ("composeAgree", Json.bool composeAgree)]),
+                    ("composeAgree", Json.bool composeAgree), ("hist", Json.arr histModel.toArray)]),
     ("spec", jobj [("accept", Json.bool (acceptB o op env)),
-                   ("failing", jstrs ((failingSpec o op env).map partStr))]),
+                   ("failing", jstrs ((failingSpec o op env).map partStr)), ("hist", Json.arr histSpec.toArray)]),
     ("excl", Json.arr #[]),
     ("branches", jstrs branches)]
 
